@@ -6,7 +6,7 @@ import ast
 
 from pyab_static.core import VERIF, AnalysisError
 from pyab_static.lr import CFG, earley_recognise
-from pyab_static.srcmodel import norm
+from pyab_static.srcmodel import dotted, norm
 
 from .common import Ctx
 from .lexrules import all_paths_raise
@@ -216,3 +216,56 @@ def rule_conflicts(ctx: Ctx, rid="C07.LALR-CONFLICTS"):
     else:
         ctx.rep.ok(rid, con, f"{len(T.states)} LALR states, {len(T.conflicts)} conflicts, all resolved by declared precedence")
     ctx.rep.extra["lalr"] = {"lr1_states": T.lr1_states, "lalr_states": len(T.states), "conflicts": len(T.conflicts)}
+
+
+def rule_layout_free_values(ctx: Ctx, rid="C08.LAYOUT-FREE-VALUES"):
+    """A token whose lexeme may contain white space (`not   in`, `else if`) has a text that varies with the layout the
+    author chose.  Its *type* is what the grammar may rely on; a production action that reads its *value* (p.TOKEN, p[i],
+    p._slice, iteration over p) makes the parse result depend on spacing."""
+    lc = ctx.main
+    L = ctx.lexicon(lc.name)
+    g = ctx.grammar
+    variable = {}
+    for i, r in enumerate(lc.rules):
+        if not r.emits or r.name not in g.terminals:
+            continue
+        ws = [a for a in L.used_atoms(i) if chr(a).isspace()]
+        if ws and not (r.action and r.action.value_rewrites):
+            variable[r.name] = ws[0]
+    ctx.rep.floor("tokens whose text can contain white space", len(variable), 1)
+    n = 0
+    for p in g.prods[1:]:
+        toks = [(k, t) for k, t in enumerate(p.syms) if t in variable]
+        if not toks or p.func is None:
+            continue
+        n += 1
+        pname = p.func.args.args[1].arg if len(p.func.args.args) > 1 else "p"
+        reads = []
+        for x in ast.walk(p.func):
+            if isinstance(x, ast.Attribute) and dotted(x.value) == pname:
+                base = x.attr.rstrip("0123456789")
+                if x.attr in variable or base in variable:
+                    reads.append((x, f"{pname}.{x.attr}"))
+                if x.attr in ("_slice", "_stack"):
+                    reads.append((x, f"{pname}.{x.attr}"))
+            if isinstance(x, ast.Subscript) and dotted(x.value) == pname:
+                if isinstance(x.slice, ast.Constant) and isinstance(x.slice.value, int):
+                    k = x.slice.value if x.slice.value >= 0 else len(p.syms) + x.slice.value
+                    if 0 <= k < len(p.syms) and p.syms[k] in variable:
+                        reads.append((x, f"{pname}[{x.slice.value}]"))
+                else:
+                    reads.append((x, norm(x)))
+            if isinstance(x, (ast.For, ast.comprehension)) and dotted(x.iter) == pname:
+                reads.append((x.iter, f"iteration over {pname}"))
+            if isinstance(x, ast.Starred) and dotted(x.value) == pname:
+                reads.append((x, f"*{pname}"))
+        con = f"{GR}:{p}"
+        if reads:
+            x, what = reads[0]
+            tk = toks[0][1]
+            ctx.rep.bad(rid, con, f"the action reads the text of {tk} ({what}); that text varies with the white space inside the "
+                        f"operator ({'not in' if 'NOT' in tk else tk} written with one blank, two, a tab or a line break)",
+                        site=g.mod.site(x), text=f"{p} reads {what}")
+        else:
+            ctx.rep.ok(rid, con, f"uses only the type of {', '.join(t for _, t in toks)}", site=p.site)
+    ctx.rep.floor("productions containing a layout-variable token", n, 2)
